@@ -48,3 +48,5 @@ mod c16;
 mod c26;
 #[cfg(kani)]
 mod c12;
+#[cfg(kani)]
+mod c02;
